@@ -13,6 +13,7 @@ import SST.Drv.Stack
 import SST.Drv.BufReader
 import SST.Drv.TableDir
 import SST.Drv.Legacy
+import SST.Drv.CompDir
 open SST SST.Drv
 
 def handle (line : String) : String :=
@@ -56,6 +57,8 @@ def handle (line : String) : String :=
     | "legacy.cuts" => Legacy.legacyCuts a
     | "v0.enc" => Legacy.v0Enc a
     | "v0.read" => Legacy.v0Read a
+    | "compdir.flag" => compDirFlag a
+    | "compdir.run" => compDirRun a
     | "ping" => "pong"
     | _ => "bad-op"
 
